@@ -50,6 +50,16 @@ def leak_only(a, b):
     return strip(a) == strip(b) and a != b
 
 
+def leak_only_vs_reference(prog, log):
+    """the run differs from the reference (either placement of a lazy gfor's first iterable) in the
+    namespace snapshots only"""
+    for eager in (False, True):
+        ref = cp.reference(prog, eager)
+        if ref[0] == "ok" and leak_only(log, ref[1]["log"]):
+            return True
+    return False
+
+
 def m_do_setv(rec, params):
     f = rec.get("input", {}).get("features", {})
     o = rec.get("observed", {})
@@ -60,8 +70,16 @@ def m_do_setv(rec, params):
 def m_nested_setx(rec, params):
     f = rec.get("input", {}).get("features", {})
     o = rec.get("observed", {})
-    return (f.get("nested_setx") and o.get("leak_only") is True
-            and ((rec.get("key") == "log-differs" and f.get("genfn")) or rec.get("key") == "strategies-disagree"))
+    if not f.get("nested_setx"):
+        return False
+    if not ((rec.get("key") in ("log-differs", "exception-differs") and f.get("genfn")) or rec.get("key") == "strategies-disagree"):
+        return False
+    if o.get("leak_only") is True:
+        return True
+    # the walrus target became a local of the generator function: reading the enclosing variable of that
+    # name inside the form now fails
+    exc = str(o.get("exception") or "")
+    return exc.startswith("UnboundLocalError") and any("'%s'" % t in exc for t in f.get("nested_setx_targets", []))
 
 
 def m_leading_if(rec, params):
@@ -201,7 +219,7 @@ def run(chk):
         if c is not None:
             obs = {"compile_err": r.get("compile_err"), "exception": r.get("exc"), "log": r.get("log"),
                    "python": (r.get("py") or "")[:2500], "detail": c[1],
-                   "leak_only": leak_only(r.get("log"), refs[i][1]["log"])}
+                   "leak_only": leak_only_vs_reference(p, r.get("log"))}
             chk.fail(c[0], inp, obs, refs[i][1], "run the program with (defn lg [k v] (print k v) v) prepended")
         elif i in twins:
             rt = res[twins[i]]
@@ -221,7 +239,7 @@ def run(chk):
                     same = sc.tolerate_interpreter_deviation(chk, rt, cp.WATCH, conf, cp.render_program(tw))
             if not same:
                 obs = {"native_log": r.get("log"), "generator_function_log": rt.get("log"),
-                       "leak_only": leak_only(r.get("log"), rt.get("log")),
+                       "leak_only": leak_only_vs_reference(twin(p), rt.get("log")),
                        "exception": rt.get("exc") or rt.get("compile_err"), "python": (rt.get("py") or "")[:2500]}
                 chk.fail("strategies-disagree", inp, obs, "the same log from both compilation strategies",
                          "add `:do 0` as last clause to force the generator-function strategy")
